@@ -16,7 +16,7 @@ fuel (`fuel(...)` errors would be hangs). Proved here (for all polygons, valid o
 * `dedupeInnersOuters` raises nothing (no ring it sees is empty), so for a polygon inside the grid **everything `snapPolygonF` raises
   is raised by `kmpDeduplicate`** (`C06_total_up_to_kmp_partial`), the outside-grid error apart.
 Not proved (open): that `kmpDeduplicate` never reaches its index/slice panics and that its fuel is never exhausted (and the
-hypothesis `KmpNoDup` about its result) — these are evaluated on every generated input (correspondence streams `snap`, `kmp`, `split`; watchdog), see DESIGN §6 C06. -/
+hypothesis `KmpNoDup` about its result, which `C06_removeSequences_sublist` reduces to `KmpRangesForward`: the recorded ranges run forward) — these are evaluated on every generated input (correspondence streams `snap`, `kmp`, `split`; watchdog), see DESIGN §6 C06. -/
 namespace Texel.C06
 open Texel
 
@@ -57,6 +57,26 @@ theorem C06_total_up_to_kmp_partial (hk : KmpNoDup) (g : Grid) (hres : 0 < g.res
     (hlev : ∀ l ∈ levels, l ≤ g.depth) (e : String) (h : snapPolygonF g rings levels cfg = .error e) :
     (e = "outside-grid" ∧ insertAll g rings = none) ∨ ∃ r, kmpDeduplicateF r = .error e :=
   snapPolygonF_error hk g hres rings levels cfg hlev e h
+
+/-- **the open hypothesis reduced to the bookkeeping of the spike search**: if every range `kmpDeduplicate` records for `RemoveSequences`
+runs forward (`KmpRangesForward`: from ≤ to, demanded only where `RemoveSequences` itself does not panic), then what it returns is a
+sublist of the ring it was given — nothing repeated, nothing reordered — and `KmpNoDup` holds. `RemoveSequences` is thereby out of the
+unproved part: "assumes sorted, non-overlapping ranges" is enforced by its own slice bounds (a panic, not a wrong answer). -/
+theorem C06_removeSequences_sublist (h : KmpRangesForward) (ring out : Array P) (hk : kmpDeduplicateF ring = .ok out) :
+    out.toList.Sublist ring.toList ∧ KmpNoDup :=
+  ⟨kmpDeduplicateF_sublist h ring out hk, kmpNoDup_of_rangesForward h⟩
+
+/-- **snapping is total up to the loop of the spike search** (partial: under `KmpRangesForward`, which is weaker in kind than `KmpNoDup` — it
+speaks about the recorded ranges, not about the result) -/
+theorem C06_total_up_to_kmp_ranges_partial (h : KmpRangesForward) (g : Grid) (hres : 0 < g.res) (rings : List (List Pt)) (levels : List Nat) (cfg : Config)
+    (hlev : ∀ l ∈ levels, l ≤ g.depth) (e : String) (he : snapPolygonF g rings levels cfg = .error e) :
+    (e = "outside-grid" ∧ insertAll g rings = none) ∨ ∃ r, kmpDeduplicateF r = .error e :=
+  snapPolygonF_error (kmpNoDup_of_rangesForward h) g hres rings levels cfg hlev e he
+
+-- non-vacuity (compiler-evaluated, the loop contains `while`): a ring walking `(2,0) (3,0)` back and forth twice records one forward range, [4, 5)
+#guard rangesForwardB #[(0,0),(2,0),(3,0),(2,0),(3,0),(2,0),(2,2),(0,2)] = true
+#guard (match kmpLoop #[(0,0),(2,0),(3,0),(2,0),(3,0),(2,0),(2,2),(0,2)] 200 ⟨0, #[], {}⟩ with | .ok s => s.entries.toList.map (·.2) | .error _ => []) = [(4, 5)]
+#guard (match kmpDeduplicateF #[(0,0),(2,0),(3,0),(2,0),(3,0),(2,0),(2,2),(0,2)] with | .ok r => r.size | .error _ => 0) = 7
 
 /-- **finding F16, on the model**: "inside the grid" in the theorems above is the integer grid of `2^depth` pixels of size `res`; when the extent of
 the tile matrix set does not divide evenly (`XSpan = 2^depth · res + r`, `0 < r`: `r` is the deviation the tool reports) the strip
